@@ -75,6 +75,11 @@ def run(ctx):
     amounts |= {"0", "0,", "0,0", "0,00", "0,01", "0,001", "0,0001", "0,00001", "1,", "1,10", "999999999999,99", "999999999999999", "9999999999999,9",
                 "123456789012,34", "25000000,12", "2,675", "0,125", "0,375", "1,005", "9007199254740993", "9007199254740992,", "4503599627370497",
                 "100,", "100,0", "100,00", "100,000", "100,0000", "100,00000", "1234567,89", "0,1", "0,2", "0,3", "12,345", "12,3456"}
+    # small values densely: every two-decimal amount below 10, a band of four-decimal rates, rates with 7-10 decimals
+    # (a conversion that is exact on most values and one unit in the last place off on a few shows here)
+    amounts |= {"%d,%02d" % (i, j) for i in range(10) for j in range(100)}
+    amounts |= {"1,%04d" % j for j in range(0, 10000, 7 if ctx.tier == "thorough" else 37)} | {"0,%04d" % j for j in range(1, 10000, 41)}
+    amounts |= {"0,0067342", "0,0001234567", "0,000000001", "1,0131", "1,0353", "1,1038", "1,1281", "0,1234567", "12,3456789", "0,00000001"}
     bad = ["NaN", "nan", "inf", "Inf", "infinity", "-inf", "1e3", "1E3", "1e-3", "1,5e2", "+5", "-5", "-0", "+0,5", ".5", ",5", "5.5.5", "1,2,3", "1.2,3",
            " 5", "5 ", "5\n", "0x10", "1_000", "１２３", "١٢٣", "", ",", ".", "1,-5", "--5", "5-", "1e400", "9" * 16, "9" * 20 + ",12", "9" * 310,
            "12345678901234567890,12", "1 000", "1'000", "1,0e0", "0,5f", "5d", "NAN", "INF", "1e", "e1", "+", "-"]
@@ -142,7 +147,8 @@ def run(ctx):
     fcases, fmeta = [], []
     sample = sorted(amounts)
     rng.shuffle(sample)
-    sample = sample[: (400 if ctx.tier == "thorough" else 60)] + ["0,", "1,10", "999999999999,99", "123456789012,34", "25000000,12", "12,345", "1,2345"]
+    sample = sample[: (400 if ctx.tier == "thorough" else 60)] + ["0,", "1,10", "999999999999,99", "123456789012,34", "25000000,12", "12,345", "1,2345",
+                                                                       "0,0067342", "0,0001234567", "1,0131", "1,14", "2,28", "0,1234567", "12,3456789"]
     for f, (ty, build, ccheck, pk) in FIELDS.items():
         # field 61 finds the end of its amount itself (first letter), so a non-decimal spelling there is a
         # different split of the line, not a different amount: those inputs belong to C05 / C07
